@@ -66,6 +66,51 @@ def _agree(term, fn, grid, mask=M32, **kw):
     return None
 
 
+def len_decoder_table(ld):
+    """LenDecoder::decode as a function of the two choice bits and the three sub-decodings (free values): the returned length
+    must be low, 8 + mid, 16 + high for choice = 0, (1, 0), (1, 1).  None if so, else what differs."""
+    pt = PosTerms(ld)
+    c = cfg(ld)
+    if len(c.returns) != 1:
+        return "cannot evaluate the decoded length: several return blocks"
+    SUB = {"low_coder": 100, "mid_coder": 200, "high_coder": 300}
+
+    def leaf_of(b1, b2):
+        def lf(q):
+            if q[0] in ("ok", "try", "okp") or (q[0] == "cast" and False):
+                if pat.has_call(q, "decode_bit"):
+                    if pat.has_field(q, "choice2"):
+                        return b2
+                    if pat.has_field(q, "choice"):
+                        return b1
+                for f_, v in SUB.items():
+                    if pat.has_field(q, f_) and pat.has_call(q, "parse"):
+                        return v
+            raise pat.NotEvaluable(q)
+        return lf
+
+    def on_def_for(lf):
+        def on_def(bb, i, s):
+            if s.rv.k == "aggregate" and s.rv.agg == "adt" and s.rv.variant == 0 and len(s.rv.ops) == 1:
+                op = s.rv.ops[0]
+                if op.place is not None and not op.place.proj:
+                    return pat.eval_gated(ld, pt, op.place.local, bb, lf, i)
+                return pat.eval_term(pt.at(bb, i).of_operand(op), lf)
+            return None
+        return on_def
+    try:
+        for (b1, b2, want, what) in ((0, 0, 100, "low"), (0, 1, 100, "low"), (1, 0, 208, "8 + mid"), (1, 1, 316, "16 + high")):
+            lf = leaf_of(b1, b2)
+            got = pat.eval_gated(ld, pt, 0, c.returns[0], lf, None, on_def_for(lf))
+            if got != want:
+                which = [k for k, v in SUB.items() if v <= got < v + 100]
+                return "with choice = %d, choice2 = %d the length is %s + %s, the format says %s" % (
+                    b1, b2, which[0] if which else "?", (got - SUB[which[0]]) if which else got, what)
+    except (pat.NotEvaluable, pat.Overflow) as ex:
+        return "cannot evaluate the decoded length as a function of the choice bits (%s)" % (str(ex)[:60])
+    return None
+
+
 def rule_rangedecoder(facts):
     r = report.RuleResult("C01.R6", "range-decoder steps: every store to range / code / probability and every bit test is the format's expression")
     db = pat.body_of(facts, "RangeDecoder::decode_bit")
@@ -343,49 +388,12 @@ def rule_rangedecoder(facts):
         else:
             r.bad("%s|init" % name, "%s: accumulators start at %s, the format says %s" % (name, sorted(consts), sorted(inits)), pat.where(b))
     # ---------------------------------------------------------------- LenDecoder::decode
-    tm = flow.Terms(ld)
-    c = cfg(ld)
-    rets = []
-    for blk in ld.blocks:
-        if blk.cleanup:
-            continue
-        for s in blk.stmts:
-            if s.k == "assign" and s.place.local == 0 and not s.place.proj and s.rv.k == "aggregate" and s.rv.agg == "adt" and s.rv.variant == 0:
-                rets.append(tm.of_operand(s.rv.ops[0]))
-    want = {"low_coder": 0, "mid_coder": 8, "high_coder": 16}
-    got = {}
-    for t in rets:
-        for f_ in want:
-            if pat.has_field(t, f_):
-                try:
-                    got[f_] = pat.eval_term(t, lambda q: 0 if q[0] in ("ok", "try") else (_ for _ in ()).throw(pat.NotEvaluable(q)))
-                except (pat.NotEvaluable, pat.Overflow):
-                    got[f_] = None
     n += 1
-    if got == want:
-        r.ok("evaluation", {"LenDecoder": "low + 0, mid + 8, high + 16"})
+    bad = len_decoder_table(ld)
+    if bad is None:
+        r.ok("evaluation", {"LenDecoder": "choice 0 -> low + 0, choice2 0 -> mid + 8, else high + 16 (gated evaluation over both choice bits)"})
     else:
-        r.bad("LenDecoder|offsets", "length coder offsets are %s, the format says %s" % (got, want), pat.where(ld))
-    gs, _ = pat.guards(ld)
-    ch = {}
-    for (bb, t, z, nz) in gs:
-        for f_ in ("choice2", "choice"):
-            if pat.has_field(t, f_) and f_ not in ch and pat.has_call(t, "decode_bit"):
-                if not (f_ == "choice" and pat.has_field(t, "choice2")):
-                    ch[f_] = (bb, z, nz)
-    n += 1
-    okk = False
-    if "choice" in ch and "choice2" in ch:
-        low = [blk.idx for blk in ld.calls() if pat.has_field(tm.of_operand(blk.term.args[0]), "low_coder") and (flow.callee(blk.term) or "").endswith("parse")]
-        mid = [blk.idx for blk in ld.calls() if pat.has_field(tm.of_operand(blk.term.args[0]), "mid_coder") and (flow.callee(blk.term) or "").endswith("parse")]
-        high = [blk.idx for blk in ld.calls() if pat.has_field(tm.of_operand(blk.term.args[0]), "high_coder") and (flow.callee(blk.term) or "").endswith("parse")]
-        b1, z1, nz1 = ch["choice"]
-        b2, z2, nz2 = ch["choice2"]
-        okk = bool(low and mid and high) and c.dominates(z1, low[0]) and c.dominates(nz1, b2) and c.dominates(z2, mid[0]) and c.dominates(nz2, high[0])
-    if okk:
-        r.ok("control-dependence", {"LenDecoder": "choice 0 -> low, choice2 0 -> mid, else high"})
-    else:
-        r.bad("LenDecoder|choice", "the length coder does not select low / mid / high by choice, choice2", pat.where(ld))
+        r.bad("LenDecoder|table", bad, pat.where(ld), "unverifiable" if bad.startswith("cannot") else "violated")
     # ---------------------------------------------------------------- initial state
     tn = flow.Terms(nw)
     adt = facts.adt("decode::rangecoder::RangeDecoder")
